@@ -150,6 +150,13 @@ class WPos:
         self.ndims, self.entries = ndims, dict(entries or {})
 
 
+class WSlice:
+    """slice(lo, hi) kept in a name"""
+
+    def __init__(self, lo, hi):
+        self.lo, self.hi = lo, hi
+
+
 class WFn:
     def __init__(self, name, node=None, env=None):
         self.name, self.node, self.env = name, node, env
@@ -472,6 +479,8 @@ class WInterp:
                 lo, hi = self.slice_bounds(sl, env)
                 return self.vslice(base, lo, hi, e)
             i = self.ev(sl, env)
+            if isinstance(i, WSlice):
+                return self.vslice(base, i.lo, i.hi, e)
             if isinstance(i, WIdx):
                 if not _same(i.n, base.n):
                     raise WUndecided(f"`{src(e)[:40]}`: the loop does not run over the length of the vector")
@@ -528,6 +537,10 @@ class WInterp:
         kw = {k.arg: self.ev(k.value, env) for k in e.keywords if k.arg not in ("dtype", "order", "copy", "like")}
         if f in ("np.array", "np.asarray", "numpy.array") and len(args) == 1 and isinstance(args[0], (WVec, WFresh)):
             return args[0]
+        if f == "slice" and len(args) == 2 and not kw:
+            return WSlice(args[0], args[1])
+        if f in ("np.empty", "np.zeros", "np.ndarray") and args and isinstance(args[0], WObj) and args[0].kind == "layout.shape":
+            return WObj("block-array")              # memory of the shape of the local block: no weights in it
         if f in ("np.empty", "np.zeros", "np.ndarray") and args:
             a0 = args[0]
             if isinstance(a0, tuple) and len(a0) == 1:
@@ -760,6 +773,10 @@ class WInterp:
             env[t.id] = v
             return
         if isinstance(t, (ast.Tuple, ast.List)):
+            if isinstance(v, WObj) and v.kind == "eta_grid" and len(t.elts) == self.config["ndims"] and \
+                    not any(isinstance(x, ast.Starred) for x in t.elts):
+                # the list of coordinate arrays has one entry per dimension of the grid
+                v = [WVec(c, "G", _N[c], ("u", lambda k, c=c: _coord(c, k))) for c in range(len(t.elts))]
             if not isinstance(v, (tuple, list)) or len(v) != len(t.elts):
                 raise WUndecided(f"unpacking `{src(st)[:40]}`")
             for x, y in zip(t.elts, v):
@@ -988,6 +1005,16 @@ class _NotElementwise:
             name = f.attr if isinstance(f, ast.Attribute) else f.id if isinstance(f, ast.Name) else ""
             if name in self.NAMES:
                 return None
+            # operands placed on different axes before they are combined (np.expand_dims / reshape / newaxis of an argument): the
+            # combination is a broadcast, i.e. an outer product, not an element-by-element pairing of the two vectors
+            reshapers = ("expand_dims", "reshape", "atleast_2d", "atleast_3d")
+            for a in list(node.args) + [k.value for k in node.keywords if k.arg != "out"]:
+                for x in ast.walk(a):
+                    if isinstance(x, ast.Call) and (src(x.func).split(".")[-1] in reshapers):
+                        return None
+                    if isinstance(x, ast.Subscript) and any((isinstance(y, ast.Constant) and y.value is None) or src(y) in ("np.newaxis", "numpy.newaxis")
+                                                           for y in (x.slice.elts if isinstance(x.slice, ast.Tuple) else [x.slice])):
+                        return None
         return self._chk.ob(rule, node, construct, ok, msg, **kw)
 
 
@@ -1110,6 +1137,48 @@ def _straight_line_env(m, env):
     return env
 
 
+def _out_stores(m, env):
+    """work arrays written as a whole in the method's own block through `out=`: `np.multiply(a, b, out=T)` (add / subtract / divide
+    alike) makes T hold a*b from there on -> {source of T: expression}; the statement must come before the return in the same block
+    and T must not be stored into anywhere else in the method"""
+    from ..resolve import expand
+    ops = {"multiply": ast.Mult, "add": ast.Add, "subtract": ast.Sub, "divide": ast.Div, "true_divide": ast.Div}
+    out = {}
+    for st in m.body:
+        if not (isinstance(st, ast.Expr) and isinstance(st.value, ast.Call)):
+            continue
+        c = st.value
+        f = src(c.func)
+        if not (f.startswith(("np.", "numpy.")) and f.split(".")[-1] in ops and len(c.args) == 2 and len(c.keywords) == 1 and c.keywords[0].arg == "out"):
+            continue
+        t = c.keywords[0].value
+        if not (isinstance(t, ast.Name) or (isinstance(t, ast.Attribute) and src(t.value) == "self")):
+            continue
+        key = src(t)
+        other = [n for n in ast.walk(m) if isinstance(n, (ast.Assign, ast.AugAssign)) and
+                 any(key in src(x) for x in (n.targets if isinstance(n, ast.Assign) else [n.target]))]
+        others_out = [n for n in ast.walk(m) if isinstance(n, ast.keyword) and n.arg == "out" and src(n.value) == key and n is not c.keywords[0]]
+        if other or others_out:
+            continue
+        out[key] = ast.BinOp(left=expand(c.args[0], env), op=ops[f.split(".")[-1]](), right=expand(c.args[1], env))
+    return out
+
+
+class _SubstSrc(ast.NodeTransformer):
+    def __init__(self, table):
+        self.table = table
+
+    def visit_Attribute(self, n):
+        if src(n) in self.table and isinstance(n.ctx, ast.Load):
+            return self.table[src(n)]
+        return self.generic_visit(n)
+
+    def visit_Name(self, n):
+        if n.id in self.table and isinstance(n.ctx, ast.Load):
+            return self.table[n.id]
+        return n
+
+
 def integrands(chk):
     """value returned by the norm method, as a formula of the field f = a + i b, the weights and the volume factor"""
     from ..resolve import inline_locals, expand
@@ -1130,7 +1199,13 @@ def integrands(chk):
         if len(rets) != 1:
             chk.ob("F9-integrand", m, q, None, f"{len(rets)} return statements: not recognised", file=rel, func=q)
             continue
-        e = _Methods2Calls().visit(expand(rets[0].value, _straight_line_env(m, inline_locals(m))))
+        env_m = _straight_line_env(m, inline_locals(m))
+        e0 = expand(rets[0].value, env_m)
+        outs = _out_stores(m, env_m) if rets[0] in m.body else {}
+        if outs:
+            import copy as _copy
+            e0 = _SubstSrc(outs).visit(_copy.deepcopy(e0))
+        e = _Methods2Calls().visit(e0)
         ast.fix_missing_locations(e)
         n_ = NpSym(env={"real": lambda z: sp.re(sp.expand(z)), "imag": lambda z: sp.im(sp.expand(z)), "conj": lambda z: sp.conjugate(z),
                         "conjugate": lambda z: sp.conjugate(z), "abs": lambda z: sp.Abs(z), "absolute": lambda z: sp.Abs(z)},
@@ -1336,7 +1411,18 @@ def _table_rows(fn, it, depth=0):
                n.func.attr in ("append", "extend", "insert", "pop", "remove", "update", "clear", "sort", "reverse") and
                isinstance(n.func.value, ast.Attribute) and n.func.value.attr == it.attr]
         if len(defs) == 1 and not others and not mut:
-            return _table_rows(fn, defs[0], depth + 1)
+            rows_ = _table_rows(fn, defs[0], depth + 1)
+            # a table built by a method holds the OBJECTS its entries named when that method ran: the attribute reads in it are marked
+            # with the method (binding time), for the rules that compare them with the attribute read later
+            m_ = parent(defs[0])
+            while m_ is not None and not isinstance(m_, (ast.FunctionDef, ast.ClassDef)):
+                m_ = parent(m_)
+            if rows_ is not None and isinstance(m_, ast.FunctionDef):
+                for r_ in rows_:
+                    for x in ast.walk(r_):
+                        if isinstance(x, ast.Attribute) and isinstance(x.value, ast.Name) and x.value.id == "self":
+                            x._captured_in, x._captured_table = m_.name, src(it)
+            return rows_
         return None
     if isinstance(it, (ast.Tuple, ast.List)):
         return None if any(isinstance(x, ast.Starred) for x in it.elts) else list(it.elts)
@@ -1454,7 +1540,190 @@ def _ctor_table(init):
     return out
 
 
+def fold_named_ints(mod):
+    """small integers kept under a name are read as the integers: members of a module-level IntEnum class (`Row.L2_PHI`, also
+    `.value` / `int(...)` of them, `len(Row)`), module-level names bound once to an integer literal, and class attributes of the same
+    kind read through the class name.  Def-use resolution on the in-memory tree of this run only -> list of the names folded"""
+    tree = mod.tree
+    enums, consts = {}, {}
+    stores = {}
+    for n in ast.walk(tree):
+        if isinstance(n, ast.Name) and isinstance(n.ctx, (ast.Store, ast.Del)):
+            stores[n.id] = stores.get(n.id, 0) + 1
+        elif isinstance(n, (ast.FunctionDef, ast.ClassDef)):
+            stores[n.name] = stores.get(n.name, 0) + 1
+        elif isinstance(n, ast.arg):
+            stores[n.arg] = stores.get(n.arg, 0) + 1
+    for st in tree.body:
+        if isinstance(st, ast.ClassDef) and any(src(b).split(".")[-1] in ("IntEnum", "IntFlag") for b in st.bases) and stores.get(st.name) == 1:
+            members, nxt, ok = {}, None, True
+            for b in st.body:
+                if isinstance(b, ast.Assign) and len(b.targets) == 1 and isinstance(b.targets[0], ast.Name):
+                    v = b.value
+                    if isinstance(v, ast.Constant) and type(v.value) is int:
+                        members[b.targets[0].id] = v.value
+                    elif isinstance(v, ast.Call) and src(v.func).split(".")[-1] == "auto" and not v.args:
+                        members[b.targets[0].id] = (max(members.values()) + 1) if members else 1
+                    else:
+                        ok = False
+                elif not (isinstance(b, ast.Expr) and isinstance(b.value, ast.Constant)) and not isinstance(b, ast.Pass):
+                    ok = False
+            if ok and members and len(set(members.values())) == len(members):
+                enums[st.name] = members
+        elif isinstance(st, ast.Assign) and len(st.targets) == 1 and isinstance(st.targets[0], ast.Name) and \
+                isinstance(st.value, ast.Constant) and type(st.value.value) is int and stores.get(st.targets[0].id) == 1:
+            consts[st.targets[0].id] = st.value.value
+    if not enums and not consts:
+        return []
+    used = set()
+
+    class Fold(ast.NodeTransformer):
+        def visit_ClassDef(self, n):
+            return n if n.name in enums else self.generic_visit(n)
+
+        def visit_Attribute(self, n):
+            n = self.generic_visit(n)
+            if isinstance(n, ast.Attribute) and isinstance(n.value, ast.Name) and n.value.id in enums and n.attr in enums[n.value.id] \
+                    and isinstance(n.ctx, ast.Load):
+                used.add(f"{n.value.id}.{n.attr}")
+                c_ = ast.copy_location(ast.Constant(value=enums[n.value.id][n.attr]), n)
+                c_._from_enum = True
+                return c_
+            if isinstance(n, ast.Attribute) and n.attr == "value" and isinstance(n.value, ast.Constant) and type(n.value.value) is int \
+                    and getattr(n.value, "_from_enum", False):
+                return n.value
+            return n
+
+        def visit_Call(self, n):
+            n = self.generic_visit(n)
+            if isinstance(n.func, ast.Name) and n.func.id == "len" and len(n.args) == 1 and isinstance(n.args[0], ast.Name) and \
+                    n.args[0].id in enums:
+                used.add(f"len({n.args[0].id})")
+                return ast.copy_location(ast.Constant(value=len(enums[n.args[0].id])), n)
+            if isinstance(n.func, ast.Name) and n.func.id == "int" and len(n.args) == 1 and isinstance(n.args[0], ast.Constant) and \
+                    type(n.args[0].value) is int:
+                return n.args[0]
+            return n
+
+        def visit_Name(self, n):
+            if isinstance(n.ctx, ast.Load) and n.id in consts:
+                used.add(n.id)
+                return ast.copy_location(ast.Constant(value=consts[n.id]), n)
+            return n
+    for st in tree.body:
+        if isinstance(st, (ast.FunctionDef, ast.ClassDef)):
+            Fold().visit(st)
+    if used:
+        ast.fix_missing_locations(tree)
+        mod._link()
+    return sorted(used)
+
+
+def write_back_table_views(mod, cls_name, table="diagnostics"):
+    """attributes the constructor binds ONCE to a view of the table - `self.V = self.T[k]` (one row) or `self.V = self.T[a:]` (the rows
+    from a on) - and that no method re-binds are written back at their uses as the table itself: `self.V[j, s]` is `self.T[a + j, s]`,
+    `self.V[j]` is `self.T[a + j, :]`, a row view `self.V[s]` is `self.T[k, s]`.  Basic slicing yields views, so stores through them
+    reach the table.  Def-use resolution on the in-memory tree of this run only -> list of descriptions"""
+    try:
+        cls_ = mod.cls(cls_name)
+    except Exception:
+        return []
+    init = next((st for st in cls_.body if isinstance(st, ast.FunctionDef) and st.name == "__init__"), None)
+    if init is None:
+        return []
+    T = f"self.{table}"
+    views = {}
+    for n in ast.walk(init):
+        if isinstance(n, ast.Assign) and len(n.targets) == 1 and isinstance(n.targets[0], ast.Attribute) and src(n.targets[0].value) == "self" \
+                and isinstance(n.value, ast.Subscript) and src(n.value.value) == T:
+            sl = n.value.slice
+            if isinstance(sl, ast.Tuple) and len(sl.elts) == 2 and _range_text(sl.elts[1]) == ":":
+                sl = sl.elts[0]
+            if isinstance(sl, ast.Constant) and type(sl.value) is int and sl.value >= 0:
+                views[n.targets[0].attr] = ("row", sl.value, n)
+            elif isinstance(sl, ast.Slice) and sl.upper is None and sl.step is None and \
+                    (sl.lower is None or (isinstance(sl.lower, ast.Constant) and type(sl.lower.value) is int and sl.lower.value >= 0)):
+                views[n.targets[0].attr] = ("from", sl.lower.value if sl.lower is not None else 0, n)
+    # bound once in the whole class (the table as well)
+    for a_ in list(views) + [table]:
+        nb = sum(1 for n in ast.walk(cls_) if isinstance(n, (ast.Assign, ast.AugAssign, ast.AnnAssign)) for t in
+                 (n.targets if isinstance(n, ast.Assign) else [n.target]) for y in (t.elts if isinstance(t, (ast.Tuple, ast.List)) else [t])
+                 if isinstance(y, ast.Attribute) and src(y.value) == "self" and y.attr == a_)
+        if nb != 1:
+            if a_ == table:
+                return []
+            views.pop(a_, None)
+    if not views:
+        return []
+    done = set()
+
+    def tab(ctx):
+        return ast.Attribute(value=ast.Name(id="self", ctx=ast.Load()), attr=table, ctx=ast.Load())
+
+    def shifted(k, a):
+        if a == 0:
+            return k
+        if isinstance(k, ast.Constant) and type(k.value) is int and k.value >= 0:
+            return ast.Constant(value=k.value + a)
+        return ast.BinOp(left=k, op=ast.Add(), right=ast.Constant(value=a))
+
+    class Back(ast.NodeTransformer):
+        def __init__(self, local_alias):
+            self.alias = local_alias
+
+        def view_of(self, e):
+            if isinstance(e, ast.Attribute) and src(e.value) == "self" and e.attr in views:
+                return e.attr
+            if isinstance(e, ast.Name) and e.id in self.alias:
+                return self.alias[e.id]
+            return None
+
+        def visit_Subscript(self, n):
+            v = self.view_of(n.value)
+            if v is None:
+                return self.generic_visit(n)
+            kind, a, _ = views[v]
+            sl = self.visit(n.slice) if not isinstance(n.slice, ast.Slice) else n.slice
+            full = ast.Slice(lower=None, upper=None, step=None)
+            if kind == "row":
+                if isinstance(sl, ast.Tuple):
+                    return self.generic_visit(n)
+                new = ast.Tuple(elts=[ast.Constant(value=a), sl], ctx=ast.Load())
+            else:
+                if isinstance(sl, ast.Tuple) and len(sl.elts) == 2 and not isinstance(sl.elts[0], ast.Slice):
+                    new = ast.Tuple(elts=[shifted(sl.elts[0], a), sl.elts[1]], ctx=ast.Load())
+                elif not isinstance(sl, (ast.Tuple, ast.Slice)):
+                    new = ast.Tuple(elts=[shifted(sl, a), full], ctx=ast.Load())
+                else:
+                    return self.generic_visit(n)
+            done.add(v)
+            return ast.copy_location(ast.Subscript(value=tab(n.ctx), slice=new, ctx=n.ctx), n)
+    for m in [st for st in cls_.body if isinstance(st, ast.FunctionDef)]:
+        # locals bound once to a view attribute: `local = self._local`
+        alias = {}
+        for n in ast.walk(m):
+            if isinstance(n, ast.Assign) and len(n.targets) == 1 and isinstance(n.targets[0], ast.Name) and isinstance(n.value, ast.Attribute) \
+                    and src(n.value.value) == "self" and n.value.attr in views and \
+                    sum(1 for x in ast.walk(m) if isinstance(x, ast.Name) and x.id == n.targets[0].id and isinstance(x.ctx, ast.Store)) == 1:
+                alias[n.targets[0].id] = n.value.attr
+        bk = Back(alias)
+        for i_, st in enumerate(m.body):
+            if m is init and any(st is v_[2] for v_ in views.values()):
+                continue
+            m.body[i_] = bk.visit(st)
+    if done:
+        ast.fix_missing_locations(mod.tree)
+        mod._link()
+    return [f"self.{v} = {src(views[v][2].value)}" for v in sorted(done)]
+
+
 def collector(chk):
+    folded = fold_named_ints(chk.mod(U.DIAG))
+    if folded:
+        chk.note("named integers read as their values: " + ", ".join(folded[:12]))
+    wb = write_back_table_views(chk.mod(U.DIAG), "DiagnosticCollector")
+    if wb:
+        chk.note("views of the table written back at their uses: " + "; ".join(wb))
     col = chk.func(U.DIAG, "DiagnosticCollector.collect")
     red = chk.func(U.DIAG, "DiagnosticCollector.reduce")
     gl = chk.func(U.DIAG, "DiagnosticCollector.getLine")
@@ -1645,6 +1914,45 @@ def collector(chk):
         for c_ in cs:
             c_.lineno = c.lineno
             inst.append(c_)
+    # ---- which array OBJECT a reduction writes.  `self.X` written in the call is the array the attribute names when reduce runs; an
+    # entry of a table built by another method (the constructor), or a block whose rows the constructor handed out as views
+    # (`self.X = self.B[k]`), is the array the attribute named THEN: the two stay the same object only while the attribute is not
+    # re-bound (state carried from one call of reduce to the next)
+    cls_ = parent(red) if isinstance(parent(red), ast.ClassDef) else None
+    block_rows, views_of = {}, {}                 # B -> number of rows allocated ; (B, k) -> [attributes bound to the row view B[k]]
+    for n in ast.walk(init):
+        if not (isinstance(n, ast.Assign) and len(n.targets) == 1):
+            continue
+        t_, v_ = n.targets[0], n.value
+        if isinstance(t_, ast.Attribute) and src(t_.value) == "self" and isinstance(v_, ast.Call) and \
+                src(v_.func) in ("np.zeros", "np.empty", "np.ndarray") and v_.args and isinstance(v_.args[0], (ast.List, ast.Tuple)) and \
+                len(v_.args[0].elts) == 2 and isinstance(v_.args[0].elts[0], ast.Constant) and isinstance(v_.args[0].elts[0].value, int):
+            block_rows[t_.attr] = v_.args[0].elts[0].value
+        if isinstance(t_, ast.Attribute) and src(t_.value) == "self" and isinstance(v_, ast.Subscript) and \
+                isinstance(v_.value, ast.Attribute) and src(v_.value.value) == "self":
+            k_ = v_.slice.elts[0] if isinstance(v_.slice, ast.Tuple) and len(v_.slice.elts) == 2 and \
+                _range_text(v_.slice.elts[1]) == ":" else v_.slice
+            if isinstance(k_, ast.Constant) and isinstance(k_.value, int) and not isinstance(k_.value, bool):
+                views_of.setdefault((v_.value.attr, k_.value), []).append(t_.attr)
+        if isinstance(t_, (ast.Tuple, ast.List)) and isinstance(v_, ast.Attribute) and src(v_.value) == "self" and \
+                all(isinstance(x, ast.Attribute) and src(x.value) == "self" for x in t_.elts):
+            for k_, x in enumerate(t_.elts):                # self.a, self.b = self.B : the row views of B
+                views_of.setdefault((v_.attr, k_), []).append(x.attr)
+
+    def rebinds(attr):
+        """statements outside the constructor that bind `self.<attr>` to another object (an assignment to the attribute itself, not
+        to its elements)"""
+        out = []
+        for m_ in (cls_.body if cls_ is not None else [red]):
+            if not isinstance(m_, ast.FunctionDef) or m_ is init:
+                continue
+            for n in ast.walk(m_):
+                tg = n.targets if isinstance(n, ast.Assign) else [n.target] if isinstance(n, ast.AnnAssign) and n.value is not None else []
+                flat = [y for x in tg for y in (x.elts if isinstance(x, (ast.Tuple, ast.List)) else [x])]
+                if any(isinstance(y, ast.Attribute) and src(y.value) == "self" and y.attr == attr for y in flat):
+                    out.append((n, m_))
+        return out
+    captured = {}                                 # row -> (attribute, how its array was fixed before reduce runs)
     for c in inst:
         b = {}
         for nm, a_ in zip(("sendbuf", "recvbuf"), c.args):
@@ -1656,15 +1964,47 @@ def collector(chk):
         if len(c.args) > 3:
             b.setdefault("root", c.args[3])
         s_ = b.get("sendbuf")
-        row, srange = None, ":"
+        row, srange, span = None, ":", None
         if isinstance(s_, ast.Subscript) and src(s_.value) == "self.diagnostics":
             e0 = s_.slice.elts[0] if isinstance(s_.slice, ast.Tuple) else s_.slice
             rest = s_.slice.elts[1:] if isinstance(s_.slice, ast.Tuple) else []
             if isinstance(e0, ast.Constant) and isinstance(e0.value, int) and not isinstance(e0.value, bool) and len(rest) <= 1:
                 row = e0.value
                 srange = _range_text(rest[0] if rest else None)
+            elif isinstance(e0, ast.Slice) and e0.step is None and len(rest) <= 1 and \
+                    all(x is None or (isinstance(x, ast.Constant) and isinstance(x.value, int) and x.value >= 0) for x in (e0.lower, e0.upper)) \
+                    and e0.upper is not None:
+                # several consecutive rows in one reduction
+                span = (e0.lower.value if e0.lower is not None else 0, e0.upper.value)
+                srange = _range_text(rest[0] if rest else None)
         rb = b.get("recvbuf")
         rrange = ":"
+        if span is not None:
+            # the receive block: row k of the block receives row span[0] + k of the table; the result array of a row is the
+            # attribute the constructor bound to that row view of the block
+            blk = rb.attr if isinstance(rb, ast.Attribute) and src(rb.value) == "self" else None
+            op = src(b["op"]) if "op" in b else "MPI.SUM"
+            root = src(b["root"]) if "root" in b else "0"
+            if blk is None or block_rows.get(blk) != span[1] - span[0] or srange != ":" or span[1] <= span[0]:
+                und.append(f"`{src(c)[:70]}` reduces the rows {span[0]}..{span[1] - 1} at once: the receive block `{src(rb) if rb is not None else '?'}` "
+                           "was not recognised as a block of as many rows allocated by the constructor")
+                continue
+            if rebinds(blk):
+                und.append(f"the receive block self.{blk} is re-bound in {rebinds(blk)[0][1].name}")
+                continue
+            for k_ in range(span[1] - span[0]):
+                names = views_of.get((blk, k_), [])
+                if len(names) != 1:
+                    und.append(f"`{src(c)[:60]}`: row {k_} of the receive block self.{blk} (row {span[0] + k_} of the table) is not handed "
+                               "out as one result array by the constructor")
+                    continue
+                if span[0] + k_ in reds:
+                    badr.append(f"row {span[0] + k_} is reduced twice")
+                reds[span[0] + k_] = (names[0], op, root, c)
+                ranges.setdefault(span[0] + k_, srange)
+                captured[span[0] + k_] = (names[0], f"the constructor binds self.{names[0]} to the row view self.{blk}[{k_}] of the block "
+                                                    f"that `{src(c)[:50]}` receives into")
+            continue
         if isinstance(rb, ast.Subscript) and isinstance(rb.value, ast.Attribute) and src(rb.value.value) == "self" and \
                 not isinstance(rb.slice, ast.Tuple):
             # the slots of the result array that receive the reduced values
@@ -1685,6 +2025,17 @@ def collector(chk):
         if row in reds:
             badr.append(f"row {row} is reduced twice")
         reds[row] = (rb.attr, op, root, c)
+        where = getattr(rb, "_captured_in", None)
+        if where is not None and where != red.name:
+            captured[row] = (rb.attr, f"the receive array of row {row} is an entry of the table `{getattr(rb, '_captured_table', '?')}` "
+                                      f"built in {where}: the array object self.{rb.attr} named at that time")
+    for row, (attr, how) in sorted(captured.items()):
+        rbs = rebinds(attr)
+        if rbs:
+            st_, m_ = rbs[0]
+            badr.append(f"{how}; `{src(st_)[:60]}` in {m_.name} binds the attribute to a NEW array, so from the second call of reduce() on "
+                        f"the reduced values of row {row} land in the old array while getLine / the user read self.{attr}: the reported "
+                        "value is stale (the previous report, transformed once more), not the reduction of the global field")
     if not calls:
         und.append("no Reduce call found")
     if len(row_of) < 8:
@@ -2174,6 +2525,35 @@ def _fed_by(loop, name):
     return None
 
 
+_EXTENT_FACT = {}
+
+
+def _extent_is_end_minus_start(chk):
+    """Layout.shape[i] = ends[i] - starts[i]: read off the constructor of the layout class (the only element store into the array behind
+    the `shape` property is `self._ends[i] - self._starts[i]`)"""
+    if "v" in _EXTENT_FACT:
+        return _EXTENT_FACT["v"]
+    ok = False
+    try:
+        lmod = chk.mod(U.LAYOUT)
+        cls_ = lmod.cls("Layout")
+        prop = next((st for st in cls_.body if isinstance(st, ast.FunctionDef) and st.name == "shape"), None)
+        rets = [n for n in ast.walk(prop) if isinstance(n, ast.Return) and n.value is not None] if prop is not None else []
+        if len(rets) == 1 and isinstance(rets[0].value, ast.Attribute) and src(rets[0].value.value) == "self":
+            a_ = rets[0].value.attr
+            st_ = [n for n in ast.walk(cls_) if isinstance(n, (ast.Assign, ast.AugAssign)) and
+                   any(isinstance(t, ast.Subscript) and src(t.value) == f"self.{a_}" for t in (n.targets if isinstance(n, ast.Assign) else [n.target]))]
+            whole = [n for n in ast.walk(cls_) if isinstance(n, ast.Assign) and any(src(t) == f"self.{a_}" for t in n.targets)]
+            if len(st_) == 1 and isinstance(st_[0], ast.Assign) and not isinstance(st_[0].targets[0].slice, (ast.Slice, ast.Tuple)):
+                i_ = src(st_[0].targets[0].slice)
+                ok = src(st_[0].value).replace(" ", "") == f"self._ends[{i_}]-self._starts[{i_}]" and \
+                    all(isinstance(w.value, ast.Call) and (src(w.value.func) in ("np.empty", "np.zeros", "tuple", "list")) for w in whole)
+    except Exception:
+        ok = False
+    _EXTENT_FACT["v"] = ok
+    return ok
+
+
 def _slice_index_rule(chk, m, body_fn, q):
     """inside the loop over (axis number, fixed global index): the axis carrying the dimension, the ownership test
     start <= fix < end on that axis, and the local index fix - start -> (verdict, why, name of the index list)"""
@@ -2248,6 +2628,51 @@ def _slice_index_rule(chk, m, body_fn, q):
     # ownership test guarding the store
     gs = [(t, pol) for t, pol, k in guards_of(st, stop=loop) if k == "if"]
     if not gs:
+        # tests passed on the way to the store that are not enclosing `if`s: earlier statements of the enclosing blocks that leave
+        # the pass (`if c: continue / break / return / raise`), up to the loop
+        early = []
+        ch, p_ = st, parent(st)
+        while p_ is not None and ch is not loop:
+            for f_ in ("body", "orelse", "finalbody"):
+                blk = getattr(p_, f_, None)
+                if isinstance(blk, list) and ch in blk:
+                    for prev in blk[:blk.index(ch)]:
+                        if isinstance(prev, ast.If) and any(isinstance(x, (ast.Continue, ast.Break, ast.Return, ast.Raise)) for x in ast.walk(prev)):
+                            early.append(prev)
+                        elif isinstance(prev, (ast.Try, ast.With, ast.For, ast.While)) and \
+                                any(isinstance(x, (ast.Continue, ast.Break, ast.Return, ast.Raise)) for x in ast.walk(prev)):
+                            early.append(prev)
+            ch, p_ = p_, parent(p_)
+        outer = [(t, pol) for t, pol, k in guards_of(loop) if k in ("if", "while")]
+        pnames = {a.arg for a in body_fn.args.args}
+
+        def plain(t):
+            """a test that only looks at the parameters being given / the block being empty: says nothing about fix vs the block"""
+            names = {x.id for x in ast.walk(t) if isinstance(x, ast.Name)}
+            return names <= (pnames | {"self", "np"}) and not any(isinstance(x, ast.Call) and src(x.func) not in ("len",) for x in ast.walk(t)) \
+                and "starts" not in src(t) and "ends" not in src(t) and "shape" not in src(t)
+        uses = [n for n in ast.walk(body_fn) if isinstance(n, ast.Subscript) and src(n.value) == "self._f" and
+                src(n.slice) in (f"tuple({idxname})", idxname)]
+        if not early and all(plain(t) for t, _ in outer) and uses and V == f"{fix} - {startD}":
+            u = uses[0]
+            tries = []
+            x_ = parent(u)
+            while x_ is not None and x_ is not body_fn:
+                if isinstance(x_, ast.Try) and any(u in set(ast.walk(b_)) for b_ in x_.body):
+                    tries.append(x_)
+                x_ = parent(x_)
+            caught = [h for t_ in tries for h in t_.handlers if h.type is None or
+                      any(nm in src(h.type) for nm in ("IndexError", "LookupError", "Exception"))]
+            use_gs = [t for t, pol, k in guards_of(u) if k == "if" and not plain(t)]
+            if not use_gs:
+                return False, (f"`{src(st)[:60]}` stores the local index `{V}` in every pass, whatever `{fix}` is: no test compares `{fix}` with "
+                               f"the bounds of the block before `{src(u)[:40]}` is evaluated" +
+                               (f" (the `except {src(caught[0].type) if caught[0].type is not None else ''}` around it only catches an index "
+                                "past the END of the axis)" if caught else "") +
+                               f".  For `{fix}` below the start of the block the local index is negative, and numpy accepts a negative index "
+                               "(it counts from the end of the axis) instead of raising: a process that does not own the requested index "
+                               "contributes the extremum of another slice of its block instead of the neutral element" +
+                               ("" if caught else "; past the end of the block the indexing raises on that process only")), idxname
         return None, "the store of the local index is not guarded by an ownership test", idxname
     atoms = []
     # a test kept in a local assigned once inside the loop, in the loop's own block before the guarded statement
@@ -2278,6 +2703,53 @@ def _slice_index_rule(chk, m, body_fn, q):
     if norm == want:
         return True, ("the fixed global index of dimension ax is looked up on the axis carrying ax, tested against [start, end) of that "
                       "axis and converted to a local index with that axis' start"), idxname
+    # the same test in another convention (local index against the local extent, bounds moved to the other side, `>` for `>=` of
+    # integers): every comparison as `e >= 0` over the integers, e a linear form of fix, start, end (extent = end - start)
+    F_, S_, E_, SH_ = sp.Symbol("fix", integer=True), sp.Symbol("start", integer=True), sp.Symbol("end", integer=True), sp.Symbol("extent", integer=True)
+    leaf = {fix: F_, startD: S_, endD: E_, f"self._layout.shape[{D}]": (E_ - S_) if _extent_is_end_minus_start(chk) else SH_}
+
+    def lin(text):
+        def go(x):
+            t_ = src(x)
+            if t_ in leaf:
+                return leaf[t_]
+            if isinstance(x, ast.Constant) and type(x.value) is int:
+                return sp.Integer(x.value)
+            if isinstance(x, ast.BinOp) and isinstance(x.op, (ast.Add, ast.Sub)):
+                a_, b_ = go(x.left), go(x.right)
+                return None if a_ is None or b_ is None else (a_ + b_ if isinstance(x.op, ast.Add) else a_ - b_)
+            if isinstance(x, ast.UnaryOp) and isinstance(x.op, ast.USub):
+                a_ = go(x.operand)
+                return None if a_ is None else -a_
+            return None
+        try:
+            return go(ast.parse(text, mode="eval").body)
+        except SyntaxError:
+            return None
+    forms = set()
+    for l, op, r in atoms:
+        a_, b_ = lin(l), lin(r)
+        if a_ is None or b_ is None or op not in (ast.Lt, ast.LtE, ast.Gt, ast.GtE):
+            forms = None
+            break
+        forms.add(sp.expand({ast.GtE: a_ - b_, ast.Gt: a_ - b_ - 1, ast.LtE: b_ - a_, ast.Lt: b_ - a_ - 1}[op]))
+    want_f = {sp.expand(F_ - S_), sp.expand(E_ - F_ - 1)}
+    if forms is not None and forms == want_f:
+        return True, ("the fixed global index of dimension ax is looked up on the axis carrying ax, tested for start <= index < end of that "
+                      "axis (written with the local index / the local extent) and converted to a local index with that axis' start"), idxname
+    if forms is not None and len(forms) == 2 and SH_ not in set().union(*[f_.free_symbols for f_ in forms]):
+        # the same two bounds up to integer constants: a boundary moved by one
+        rest = set(want_f)
+        off = []
+        for f_ in forms:
+            m_ = [w_ for w_ in rest if sp.expand(f_ - w_).is_number]
+            if len(m_) == 1:
+                rest.discard(m_[0])
+                off.append(sp.expand(f_ - m_[0]))
+        if not rest and any(o_ != 0 for o_ in off):
+            shown = " and ".join(("" if pol_ else "not ") + f"({src(t_)[:60]})" for t_, pol_ in gs)
+            return False, (f"ownership test `{shown}` is not `start <= {fix} < end`: an index on a block boundary is assigned to "
+                           "no process or to two (out-of-range local index / value taken from the neighbouring block)"), idxname
     if {(l, r) for l, _, r in norm} == {(l, r) for l, _, r in want} and all(op in (ast.Lt, ast.LtE, ast.Gt, ast.GtE) for _, op, _ in norm):
         shown = " and ".join(("" if pol_ else "not ") + f"({src(t_)[:60]})" for t_, pol_ in gs)
         return False, (f"ownership test `{shown}` is not `start <= {fix} < end`: an index on a block boundary is assigned to "
@@ -2462,6 +2934,92 @@ def _take_chain(fn, name, idxname):
     return ind in (f"[{ix}]", f"({ix},)") and axis == ax
 
 
+def _break_to_latch(fn):
+    """`for ...: S1; if c: break; S2  else: E` is read in the form the ownership rules know: a flag that starts True and is cleared
+    where the loop would be left, the rest of the pass in the other arm of the test, and `if flag: E` after the loop.
+        flag = True
+        for ...: S1
+                 if c: flag = False
+                 else: S2
+        if flag: E
+    The two differ only in that the passes after the leaving one still run: they write the loop's own locals (E7-query-purity), which
+    the code after the loop reads only when the flag is still set, i.e. when no pass left the loop.  Done on the in-memory tree of
+    this run only -> list of the loops rewritten (descriptions)"""
+    done = []
+
+    def has_break(stmts):
+        """break statements of THIS loop in the statements (nested loops have their own)"""
+        out = []
+        for st in stmts:
+            if isinstance(st, ast.Break):
+                out.append(st)
+            elif isinstance(st, (ast.For, ast.While)):
+                out += has_break(st.orelse)
+            elif isinstance(st, (ast.If, ast.With, ast.Try)):
+                for f_ in ("body", "orelse", "finalbody"):
+                    out += has_break(getattr(st, f_, []) or [])
+                for h in getattr(st, "handlers", []):
+                    out += has_break(h.body)
+        return out
+
+    def clear(flag, at):
+        return ast.copy_location(ast.Assign(targets=[ast.Name(id=flag, ctx=ast.Store())], value=ast.Constant(value=False), lineno=at.lineno), at)
+
+    def rewrite(stmts, flag):
+        """statement list with the breaks turned into `flag = False`, what followed a leaving test moved to its other arm; None when a
+        break sits where this reading does not apply"""
+        for i, st in enumerate(stmts):
+            if not has_break([st]):
+                continue
+            if isinstance(st, ast.Break):
+                return stmts[:i] + [clear(flag, st)]
+            if not isinstance(st, ast.If):
+                return None
+            body, orelse = rewrite(list(st.body), flag), rewrite(list(st.orelse), flag)
+            if body is None or orelse is None:
+                return None
+            rest = rewrite(list(stmts[i + 1:]), flag)
+            if rest is None:
+                return None
+            b_leaves = bool(st.body) and has_break(st.body) and isinstance(st.body[-1], ast.Break)
+            o_leaves = bool(st.orelse) and has_break(st.orelse) and isinstance(st.orelse[-1], ast.Break)
+            if b_leaves and not has_break(st.body[:-1]) and not has_break(st.orelse):
+                new = ast.If(test=st.test, body=body, orelse=orelse + rest)
+            elif o_leaves and not has_break(st.orelse[:-1]) and not has_break(st.body):
+                new = ast.If(test=st.test, body=body + rest, orelse=orelse)
+            else:
+                return None
+            return stmts[:i] + [ast.copy_location(new, st)]
+        return stmts
+    k = 0
+    for blk_owner in list(ast.walk(fn)):
+        for f_ in ("body", "orelse"):
+            blk = getattr(blk_owner, f_, None)
+            if not isinstance(blk, list):
+                continue
+            for i, lp in enumerate(list(blk)):
+                if not (isinstance(lp, ast.For) and has_break(lp.body)) or any(isinstance(n, ast.Continue) for n in ast.walk(lp)):
+                    continue
+                k += 1
+                flag = "_no_pass_left" + (str(k) if k > 1 else "")
+                nb = rewrite(list(lp.body), flag)
+                if nb is None:
+                    continue
+                pre = ast.copy_location(ast.Assign(targets=[ast.Name(id=flag, ctx=ast.Store())], value=ast.Constant(value=True),
+                                                   lineno=lp.lineno), lp)
+                lp.body = nb
+                post = []
+                if lp.orelse:
+                    post = [ast.copy_location(ast.If(test=ast.Name(id=flag, ctx=ast.Load()), body=list(lp.orelse), orelse=[]), lp.orelse[0])]
+                    lp.orelse = []
+                j = blk.index(lp)
+                blk[j:j + 1] = [pre, lp] + post
+                done.append(f"{fn.name}: loop at line {lp.lineno} left by `break` read with the flag `{flag}`")
+    if done:
+        ast.fix_missing_locations(fn)
+    return done
+
+
 def extrema(chk):
     from .. import lints
     gmod = chk.mod(U.GRID)
@@ -2480,6 +3038,10 @@ def extrema(chk):
                     todo.append(methods[c.func.attr])
         for g in group[1:]:
             chk.functions.add(f"{U.GRID}:Grid.{g.name}")
+        latched = [d_ for g in group for d_ in _break_to_latch(g)]
+        if latched:
+            gmod._link()
+            chk.note("loops left early read as flag loops: " + "; ".join(latched))
         # a query: nothing reachable from the grid is modified, so the answer does not depend on earlier requests
         muts = [x for g in group for x in lints.shared_state_mutations(g, lambda s_: s_.startswith("self."))]
         chk.ob("E7-query-purity", muts[0][0] if muts else fn, f"Grid.{m} modifies nothing of the grid", not muts,
@@ -2785,9 +3347,14 @@ def run(chk):
         "DiagnosticCollector (relational: collect, reduce and getLine are compared with one another, the row a quantity lives in is "
         "their private convention): every documented quantity (class/layout/argument of its norm object) is written to one row, "
         "through direct stores, a view of the slot's column or a whole-column store; that row is reduced with the operation of the "
-        "quantity into its own result array (calls in loops over literal tables enumerated); square roots only on the result arrays "
+        "quantity into its own result array (calls in loops over literal tables enumerated; one reduction of several rows into a block "
+        "whose rows the constructor hands out as result arrays; named integers - IntEnum members, module constants - read as their "
+        "values); binding time: a receive array fixed before reduce runs (an entry of a table built by the constructor, a row view of a "
+        "receive block) is the object getLine reads only while no method re-binds the attribute; square roots only on the result arrays "
         "of the two L2 rows after the sums; getLine prints the result arrays in the documented order; Grid.getMin/getMax: what every "
-        "symbolic path (helpers followed) hands to the reduction, ownership latch (boolean, or a counter of non-local fixed indices), "
+        "symbolic path (helpers followed) hands to the reduction, ownership latch (boolean, a counter of non-local fixed indices, or a "
+        "loop left by `break` with for/else, read as the flag form), the ownership test as a normal form over the integers (local index "
+        "against the local extent = end - start, read off the layout class, is the same test), "
         "fixed global index -> axis and local index (ownership test in positive or negated form), a sort inference keeping dimension "
         "numbers and axis positions apart in every lookup (dims_order / inv_dims_order / starts / ends / index list / tables keyed by "
         "the caller's axis numbers), query purity; the slot of collect is (t // dt) modulo the number of slots allocated. The slot<->step relation of the driver's "
